@@ -912,7 +912,7 @@ func stressMain(args []string) {
 		}
 		end := time.Now().Add(*dur)
 		for time.Now().Before(end) {
-			time.Sleep(time.Duration(150+rng.Intn(250)) * time.Millisecond)
+			time.Sleep(time.Duration(40+rng.Intn(160)) * time.Millisecond)
 			if rng.Intn(3) == 0 {
 				mu.Lock()
 				l := leader
